@@ -1804,11 +1804,13 @@ class Interp:
                 y = self.strip_ref(st, y) if y[0] == 'ref' else y
             # fieldless enum variants: equality is equality of discriminants
             if is_agg(x) and is_agg(y) and not x[4] and not y[4] and x[1] == y[1] and x[1] in self.F.adts:
-                return ('bool', (x[3] == y[3]) == (op == 'Eq'))
+                return ('bool', (x[2] == y[2]) == (op == 'Eq'))
             for a_, b_ in ((x, y), (y, x)):
                 if is_agg(a_) and not a_[4] and a_[1] in self.F.adts and self.F.adts[a_[1]].get('kind') == 'enum' and not is_agg(b_) \
                         and all(not v_.get('fields') for v_ in self.F.adts[a_[1]]['variants']):
-                    return cmp_atom(op, ('discr', b_), INT(a_[3]), 'isize')
+                    dv = self.discr_of(a_)
+                    if dv is not None:
+                        return cmp_atom(op, ('discr', b_), INT(dv), 'isize')
             return cmp_atom(op, x, y, 'partial_eq')
         if decl in ('std::boxed::Box::<T>::new_uninit', 'std::boxed::box_assume_init_into_vec_unsafe'):
             if decl.endswith('into_vec_unsafe'):
